@@ -99,9 +99,11 @@ LawBuckets(s, kf) == LET b == Buckets(s, kf) IN
     /\ FoldSeq(LAMBDA x, acc : acc + Len(x[2]), 0, b) = Len(s)
     /\ \A i \in 1..Len(b) : \A j \in 1..Len(b[i][2]) : KeyOf(kf, b[i][2][j]) = b[i][1]
 LawRanges(size, chunk, offset, overlap, align) == LET r == ChunkRanges(size, chunk, offset, overlap, align) IN
-    /\ \A i \in 1..Len(r) : r[i][2] - r[i][1] <= chunk /\ r[i][1] < r[i][2]
+    /\ \A i \in 1..Len(r) : r[i][2] - r[i][1] <= chunk /\ (size > 0 => r[i][1] < r[i][2])
     /\ (size > 0 => r # <<>> /\ r[1][1] = offset /\ r[Len(r)][2] = offset + size)
-    /\ (size = 0 => r = <<>>)
+    /\ (size = 0 => \A i \in 1..Len(r) : r[i] = <<offset, offset>>)      \* nothing to cover: no range, or an empty one
+    (* every index is covered *)
+    /\ \A x \in offset..(offset + size - 1) : \E i \in 1..Len(r) : r[i][1] <= x /\ x < r[i][2]
     /\ \A i \in 2..Len(r) : r[i][1] = r[i - 1][2] - overlap
     /\ (align => \A i \in 2..Len(r) : r[i][1] % (chunk - overlap) = 0)
 =============================================================================
